@@ -487,6 +487,40 @@ def rule_g(model, rep):
     rep.minimum(R, 5)
 
 
+def rule_h(model, rep):
+    """the empty password is an admissible password: helpers that divide by the length of their argument are reached
+    only under a truthiness guard of the caller-supplied text"""
+    R = "C01.h-empty-input"
+    U = "passlib.utils"
+    dividers = set()
+    for name, fn in model.unit(U).funcs.items():
+        ps = params(fn)
+        for n in walk_no_nested(fn):
+            if isinstance(n, ast.BinOp) and isinstance(n.op, (ast.FloorDiv, ast.Mod, ast.Div)) and isinstance(n.right, ast.Call) and ast.unparse(n.right.func) == "len" \
+                    and n.right.args and isinstance(n.right.args[0], ast.Name) and n.right.args[0].id in ps[:1]:
+                dividers.add(name)
+    rep.check({"repeat_string", "utf8_repeat_string"} <= dividers, R, site(U, "repeat_string"), f"functions dividing by len(first argument): {sorted(dividers)}", "helpers that cannot take an empty string are known")
+    n = 0
+    for un, unit in model.units.items():
+        if not un.startswith(("passlib.", "libpass.")):
+            continue
+        for q, fn in unit.functions():
+            for c in walk_no_nested(fn):
+                if isinstance(c, ast.Call) and ast.unparse(c.func).split(".")[-1] in dividers and c.args and isinstance(c.args[0], ast.Name) and c.args[0].id in ("secret", "user", "password", "pwd", "realm"):
+                    arg = c.args[0].id
+                    n += 1
+                    cur, guarded = c, False
+                    while cur is not fn and cur is not None:
+                        par = unit.parent(cur)
+                        if isinstance(par, ast.If) and cur in par.body and ast.unparse(par.test) in (arg, f"len({arg})", f"{arg} and require_valid_utf8_bytes"):
+                            guarded = True
+                        cur = par
+                    rep.check(guarded, R, site(un, q), f"{ast.unparse(c)}  # not under `if {arg}:`", f"`{ast.unparse(c.func)}` divides by len({arg}); the call is reached only when `{arg}` is non-empty",
+                              witness=f"the empty {arg} raises ZeroDivisionError instead of being hashed (e.g. bcrypt.using(ident='2').hash(''))")
+    if n < 3:
+        rep.undecided(R, "<instance-count>", f"only {n} guarded call sites found, expected at least 3")
+
+
 def run(model, rep):
     rep.explanation = __doc__
     rep.assumptions = ["`secret` is str|bytes at _calc_checksum entry (validate_secret ran; checked by C05.b)",
@@ -499,5 +533,6 @@ def run(model, rep):
     rule_c(model, rep)
     rule_d(model, rep)
     rule_e(model, rep)
+    rule_h(model, rep)
     rule_f(model, rep)
     rule_g(model, rep)
